@@ -11,6 +11,7 @@ The only changes made are the documented rules (DESIGN.md §3.1):
   N1  `.map_err(Err::Failure)` -> `.map_err(|e| Err::Failure(e))`
   N2  `format!(..)` -> `crate::shim::fmt_opaque()`
   N3  `pub(crate)` -> `pub`
+  N5  closure parameter `|_|` -> `|_e|`
   N4  contracts / loop clauses / ghost hints inserted from the overlay (ghost code only)
   + unit-specific literal rewrites listed in the unit file under [[rewrite]] (each reported)
 
@@ -302,9 +303,19 @@ class Unit:
             have_fns = set((f['file'], f.get('item', ''), f['name']) for f in spec.get('fn', []))
             for fo in sub.get('fn', []):
                 if (fo['file'], fo.get('item', ''), fo['name']) not in have_fns:
+                    if spec.get('include_assumed') and fo.get('mode', 'verify') == 'verify' and (fo.get('ensures') or fo.get('requires') or spec.get('t2') or sub.get('t2')):
+                        # composition by contract: bodies of the included unit's functions are proved THERE; here only
+                        # their contracts are visible (assumed), like any other callee
+                        fo = dict(fo)
+                        fo['mode'] = 'external_body'
+                        fo['why'] = 'proved in unit %s; assumed in this unit (composition by contract)' % sub.get('name', inc)
+                        fo.pop('loop', None)
+                        fo.pop('hint', None)
                     spec.setdefault('fn', []).append(fo)
             for ie in sub.get('item_extra', []):
                 spec.setdefault('item_extra', []).append(ie)
+            if 't2' in sub and 't2' not in spec:
+                spec['t2'] = sub['t2']
         return spec
 
     # -- helpers ---------------------------------------------------------------------------
@@ -492,6 +503,10 @@ class Unit:
             if in_kept(m.start()) and code_at(m.start()):
                 ed.add(m.start(), m.end(), '.map_err(|e| Err::Failure(e))', 'N1')
                 self.rule('N1', path, line_of(text, m.start()), 'eta-expanded map_err(Err::Failure)')
+        for m in re.finditer(r'\|_\|', text):
+            if in_kept(m.start()) and code_at(m.start()):
+                ed.add(m.start(), m.end(), '|_e|', 'N5')
+                self.rule('N5', path, line_of(text, m.start()), 'closure parameter `_` named `_e` (Verus needs a variable pattern)')
         for m in re.finditer(r'\bformat!\s*\(', text):
             if in_kept(m.start()) and code_at(m.start()):
                 e = match_brace(text, m.end() - 1)
@@ -576,8 +591,15 @@ class Unit:
         # ---- emit
         self.emit("// ---- %s" % path, ('gen',))
         self.emit("use vstd::prelude::*;", ('gen',))
+        groups = []
         if 'std.rs' in self.spec.get('shims', []):
-            self.emit("broadcast use crate::stdspec::group_std_axioms;", ('gen',))
+            groups.append("crate::stdspec::group_std_axioms")
+        if 'buffer.rs' in self.spec.get('shims', []):
+            groups.append("crate::buf::group_buffer_axioms")
+        if 'cipher.rs' in self.spec.get('shims', []):
+            groups.append("crate::cipher::group_cipher_axioms")
+        if groups:
+            self.emit("broadcast use {%s};" % ', '.join(groups), ('gen',))
         if f.get('pre'):
             self.emit(f['pre'], ('ovl', 'pre:' + path))
         for it in kept:
@@ -733,15 +755,17 @@ class Unit:
             pieces.append(('    decreases %s,\n' % ov['decreases'], tagbase + 'decreases'))
         if ov.get('opens_invariants'):
             pass
-        # attribute for external_body
+        # attribute for external_body (a bodiless trait method declaration has nothing to skip)
+        if mode == 'external_body' and sub['body_open'] is None:
+            mode = 'verify'
         if mode == 'external_body':
-            ed.add(sub['hdr_a'], sub['hdr_a'], '#[verifier::external_body]\n', tagbase + 'external_body')
+            ed.edits.insert(0, (sub['hdr_a'], sub['hdr_a'], '#[verifier::external_body]\n', tagbase + 'external_body'))
             self.report['assumptions'].append(dict(where=qname, what='external_body',
                                                    text=ov.get('why', 'body not verified by Verus; contract assumed here')))
         elif mode != 'verify':
             raise LostAnchor("unknown mode %s" % mode)
         if ov.get('attrs'):
-            ed.add(sub['hdr_a'], sub['hdr_a'], ov['attrs'].strip() + '\n', tagbase + 'attrs')
+            ed.edits.insert(0, (sub['hdr_a'], sub['hdr_a'], ov['attrs'].strip() + '\n', tagbase + 'attrs'))
         # insert contract just before body_open (or ';')
         ins = sig_end if where is None else body_open
         # contracts go after where clause, immediately before '{'
